@@ -45,9 +45,24 @@ Theorem C03_cn_coefficients : forall sigma, 0 <= sigma <= 1 ->
 Proof. intros. rewrite link_cn_coeff. now apply cn_coefficients. Qed.
 Print Assumptions C03_cn_coefficients.
 
-(** hard boundaries. The code redraws an out-of-cube proposal until it is inside; that chain is in detailed
-    balance with pi(x) * P(step from x lands inside), NOT with pi: the statement fails at hard boundaries
-    (known finding). Counting an outside proposal as a rejection would be in detailed balance with pi. *)
+(** hard boundaries. The code draws one proposal and rejects it when it lies outside the unit cube (tied by
+    Gen.Kernel.out_of_cube_proposals_are_rejected): for every reference-reversible proposal on the whole space (tpCN with its
+    Student-t reference, RWM with a constant one) the chain is in detailed balance with the target extended by zero outside
+    the cube, for every pair of points, and never leaves the cube. *)
+Theorem C03_reject_outside_detailed_balance : forall X (inside : X -> bool) (pi m : X -> R) (q : X -> X -> R),
+  (forall x, inside x = true -> 0 < pi x) -> (forall x, 0 < m x) -> (forall x y, m x * q x y = m y * q y x) -> forall x y,
+  pi_ext X inside pi x * q x y * alpha_rej X inside pi m x y = pi_ext X inside pi y * q y x * alpha_rej X inside pi m y x.
+Proof. exact reject_outside_detailed_balance. Qed.
+Print Assumptions C03_reject_outside_detailed_balance.
+Theorem C03_reject_outside_stays_inside : forall X (inside : X -> bool) (pi m : X -> R) x y,
+  inside y = false -> alpha_rej X inside pi m x y = 0.
+Proof. exact reject_outside_stays_inside. Qed.
+Print Assumptions C03_reject_outside_stays_inside.
+Theorem C03_out_of_cube_rule_is_rejection : Gen.Kernel.out_of_cube_proposals_are_rejected = true.
+Proof. reflexivity. Qed.
+
+(** the pinned tree's rule, refuted: redrawing an out-of-cube proposal until it is inside is in detailed balance with
+    pi(x) * P(step from x lands inside), NOT with pi (repaired in /repo; kept as the reason the rule matters). *)
 Theorem C03_redraw_balances_tilted_target : forall X (pi : X -> R) (phi : X -> X -> R) (Pin : X -> R),
   (forall x, 0 < pi x) -> (forall x, 0 < Pin x) -> (forall x y, phi x y = phi y x) -> forall x y,
   (pi x * Pin x) * q_redraw X phi Pin x y * alpha_code X pi x y = (pi y * Pin y) * q_redraw X phi Pin y x * alpha_code X pi y x.
